@@ -11,7 +11,7 @@ for id in $ids; do
   git -C /repo apply /verif/harmless/$id/patch.diff
   bad=""
   for p in $props; do
-    out=$(./check $p quick 2>&1)
+    out=$(VERIF_NO_EVIDENCE=1 ./check $p quick 2>&1)
     if echo "$out" | grep -q "^VIOLATION"; then bad="$bad $p"; echo "$out" | grep "failed obligation" | head -3 | sed "s/^/    [$id $p] /" | cut -c1-260; fi
   done
   git -C /repo apply -R /verif/harmless/$id/patch.diff
